@@ -125,6 +125,154 @@ pub fn gen_matrix(r: &mut Rng, c: &str, n: usize) -> Vec<f64> {
     a
 }
 
+// ---------------------------------------------------------------------------------------------
+// coverage audit: regimes of "all finite f64 matrices of order 1..32" that the twelve classes above do not reach
+// (magnitudes beyond [1e-28, 1e7], two-sided / row-and-column scaling, ill-conditioned SPD on the Cholesky route,
+// mirrored entries one unit in the last place apart, indefiniteness that shows only at a late pivot, growth 2^(n-1),
+// exactly structured matrices with signed zeros) and the right-hand sides the random ones never are (zero, unit
+// vectors, a zero column, columns of very different scale).  Same demands, new evaluation points.
+pub const EXTRA: [&str; 9] = [
+    "scaled-extreme", "rowcol-scaled", "spd-graded", "spd-illcond", "structured-spd", "sym-ulp-asym", "sym-indef-late", "wilkinson-growth", "special-exact",
+];
+
+fn mirror_lower(a: &mut [f64], n: usize) { for i in 0..n { for j in 0..i { a[j * n + i] = a[i * n + j]; } } }
+fn next_up(x: f64, ulps: i64) -> f64 { if x == 0.0 || !x.is_finite() { x } else { f64::from_bits((x.to_bits() as i64 + ulps) as u64) } }
+
+/// one matrix of an audit class; the flag says that the matrix is nonsingular BY CONSTRUCTION (an exact diagonal scaling / permutation of a
+/// strictly diagonally dominant matrix), so that the oracle's "numerically singular" filter, which compares the smallest pivot with the largest
+/// entry and is therefore not invariant under row scaling, must not be applied to it
+pub fn gen_extra(r: &mut Rng, c: &str, n: usize) -> (Vec<f64>, bool) {
+    let mut a = vec![0.0; n * n];
+    match c {
+        "scaled-extreme" => {
+            // a matrix of one of the property's classes times 2^e, |e| in 100..900 (exact: routing, pivots and the solution's digits are those of the base)
+            let base = *r.pick(&["dense", "spd", "sym-indef-posdiag", "diag-dominant", "sym-dd-posdiag", "integer-known", "perm-scaled-triangular"]);
+            a = gen_matrix(r, base, n);
+            let e = r.range(100, 900) * if r.coin(0.5) { 1 } else { -1 };
+            let s = pow2(e);
+            for x in a.iter_mut() { *x *= s; }
+            (a, false)
+        }
+        "rowcol-scaled" => {
+            // P . D1 . R . D2, R strictly diagonally dominant, D1 and D2 powers of two over +-150 binades each
+            let rr = gen_matrix(r, "diag-dominant", n);
+            let re: Vec<i64> = (0..n).map(|_| r.range(-150, 150)).collect();
+            let ce: Vec<i64> = (0..n).map(|_| r.range(-150, 150)).collect();
+            let mut p: Vec<usize> = (0..n).collect();
+            for i in (1..n).rev() { let j = r.below(i as u64 + 1) as usize; p.swap(i, j); }
+            for i in 0..n { for j in 0..n { a[p[i] * n + j] = rr[i * n + j] * pow2(re[i]) * pow2(ce[j]); } }
+            (a, true)
+        }
+        "spd-graded" => {
+            // D . S . D, S symmetric positive definite, D graded over 2^-16.5 (cond about 1e10 . cond S), in natural, reversed or shuffled order: Cholesky route
+            let s0 = if r.coin(0.5) { gen_matrix(r, "spd", n) } else { gen_matrix(r, "sym-dd-posdiag", n) };
+            let mut ord: Vec<usize> = (0..n).collect();
+            match r.below(3) { 0 => {} 1 => ord.reverse(), _ => { for i in (1..n).rev() { let j = r.below(i as u64 + 1) as usize; ord.swap(i, j); } } }
+            let d: Vec<f64> = (0..n).map(|i| if n > 1 { pow2(-((16.5 * ord[i] as f64 / (n - 1) as f64).round() as i64)) } else { 1.0 }).collect();
+            for i in 0..n { for j in 0..n { a[i * n + j] = s0[i * n + j] * d[i] * d[j]; } }
+            (a, false)
+        }
+        "spd-illcond" => {
+            // G^T G with G ill-conditioned (cond 10 .. 1e5, so cond A up to 1e10): exactly symmetric (same products, same order), Cholesky route with
+            // a last pivot that is tiny against the diagonal
+            let mut g: Vec<f64> = (0..n * n).map(|_| r.uniform(-2.0, 2.0)).collect();
+            if n >= 2 {
+                let delta = (10.0f64).powf(-r.uniform(1.0, 5.0));
+                let w: Vec<f64> = (0..n - 1).map(|_| r.uniform(-1.0, 1.0)).collect();
+                for j in 0..n { let mut sum = 0.0; for i in 0..n - 1 { sum += w[i] * g[i * n + j]; } g[(n - 1) * n + j] = sum + delta * g[(n - 1) * n + j]; }
+            }
+            for i in 0..n { for j in 0..n { let mut s = 0.0; for k in 0..n { s += g[k * n + i] * g[k * n + j]; } a[i * n + j] = s; } }
+            (a, false)
+        }
+        "structured-spd" => {
+            // textbook SPD matrices: Hilbert (order <= 10), Lehmer, min(i,j), second difference, Pascal (order <= 10)
+            let kind = r.below(5);
+            for i in 0..n { for j in 0..n {
+                let (fi, fj) = (i as f64 + 1.0, j as f64 + 1.0);
+                a[i * n + j] = match kind {
+                    0 if n <= 10 => 1.0 / (fi + fj - 1.0),
+                    0 | 1 => fi.min(fj) / fi.max(fj),
+                    2 => fi.min(fj),
+                    4 if n <= 10 => binom(i + j, i.min(j)),
+                    _ => if i == j { 2.0 } else if i + 1 == j || j + 1 == i { -1.0 } else { 0.0 },
+                };
+            }}
+            (a, false)
+        }
+        "sym-ulp-asym" => {
+            // SPD with mirrored entries ONE unit in the last place apart (symmetric within the predicate's tolerance: Cholesky route, which reads the
+            // lower triangle only); with probability 1/3 one pair is three units apart instead (not symmetric: LU route)
+            a = if r.coin(0.5) { gen_matrix(r, "spd", n) } else { gen_matrix(r, "sym-dd-posdiag", n) };
+            for i in 0..n { for j in (i + 1)..n { if r.coin(0.6) { a[i * n + j] = next_up(a[i * n + j], if r.coin(0.5) { 1 } else { -1 }); } } }
+            if n >= 2 && r.coin(0.33) { let i = r.below(n as u64 - 1) as usize; let j = i + 1 + r.below((n - 1 - i) as u64) as usize; a[i * n + j] = next_up(a[j * n + i], 3); }
+            (a, false)
+        }
+        "sym-indef-late" => {
+            // L . D . L^T with real entries, D positive except at ONE position p >= 1 (often the last): symmetric, positive diagonal, indefinite, and
+            // the Cholesky sweep succeeds on the leading p x p block before it meets the negative pivot
+            if n == 1 { a[0] = r.uniform(0.5, 2.0); return (a, false); }
+            let p = match r.below(3) { 0 => n - 1, 1 => 1, _ => 1 + r.below(n as u64 - 1) as usize };
+            let mut l = vec![0.0; n * n];
+            for i in 0..n { for j in 0..i { l[i * n + j] = r.uniform(-0.5, 0.5); } l[i * n + i] = 1.0; }
+            l[p * n] = 1.0;     // a_pp = d_0 + ... + d_p > 0 because d_0 >= 0.5 > |d_p|
+            let d: Vec<f64> = (0..n).map(|k| if k == p { -(10.0f64).powf(-r.uniform(0.4, 6.0)) } else { r.uniform(0.5, 2.0) }).collect();
+            for i in 0..n { for j in 0..=i { let mut s = 0.0; for k in 0..=j { s += l[i * n + k] * d[k] * l[j * n + k]; } a[i * n + j] = s; } }
+            mirror_lower(&mut a, n);
+            (a, false)
+        }
+        "wilkinson-growth" => {
+            // 1 on the diagonal, -1 below, 1 in the last column: elimination with partial pivoting doubles the last column at every step
+            // (growth 2^(n-1)); columns and rows with random signs (exact)
+            for i in 0..n { for j in 0..n { a[i * n + j] = if i == j || j == n - 1 { 1.0 } else if j < i { -1.0 } else { 0.0 }; } }
+            if r.coin(0.5) { let sg: Vec<f64> = (0..n).map(|_| if r.coin(0.5) { 1.0 } else { -1.0 }).collect(); for i in 0..n { for j in 0..n { a[i * n + j] *= sg[j]; } } }
+            if r.coin(0.3) { for i in 0..n { for j in 0..i { a[i * n + j] *= r.uniform(0.999, 1.0); } } }
+            (a, false)
+        }
+        _ => {
+            // "special-exact": identity, signed permutation, positive / mixed-sign diagonal over 60 binades, anti-diagonal, exactly triangular,
+            // symmetric with zero diagonal; the structural zeros carry random signs (-0.0)
+            let kind = r.below(7);
+            let mut p: Vec<usize> = (0..n).collect();
+            for i in (1..n).rev() { let j = r.below(i as u64 + 1) as usize; p.swap(i, j); }
+            for i in 0..n { for j in 0..n {
+                a[i * n + j] = match kind {
+                    0 => if i == j { 1.0 } else { 0.0 },
+                    1 => if p[i] == j { if r.coin(0.5) { 1.0 } else { -1.0 } } else { 0.0 },
+                    2 => if i == j { r.uniform(0.5, 2.0) * pow2(r.range(-30, 30)) } else { 0.0 },
+                    3 => if i == j { r.uniform(0.5, 2.0) * pow2(r.range(-30, 30)) * if r.coin(0.5) { 1.0 } else { -1.0 } } else { 0.0 },
+                    4 => if i + j == n - 1 { r.uniform(0.5, 2.0) } else { 0.0 },
+                    5 => if j >= i { if i == j { r.uniform(0.5, 2.0) } else { r.uniform(-1.0, 1.0) } } else { 0.0 },
+                    _ => if j <= i { if i == j { r.uniform(0.5, 2.0) } else { r.uniform(-1.0, 1.0) } } else { 0.0 },
+                };
+            }}
+            if kind == 4 { mirror_lower(&mut a, n); }
+            for x in a.iter_mut() { if *x == 0.0 && r.coin(0.4) { *x = -0.0; } }
+            (a, true)
+        }
+    }
+}
+fn binom(n: usize, k: usize) -> f64 { let mut b = 1.0f64; for t in 0..k { b = b * (n - t) as f64 / (t + 1) as f64; } b.round() }
+
+/// right-hand sides the random ones never are; row-major n x k
+pub fn gen_rhs_extra(r: &mut Rng, a: &[f64], n: usize, k: usize, mode: u64) -> Vec<f64> {
+    let mut b: Vec<f64> = (0..n * k).map(|_| r.uniform(-4.0, 4.0)).collect();
+    match mode % 6 {
+        0 => {}                                                                               // random of order one
+        1 => { for x in b.iter_mut() { *x = 0.0; } }                                          // zero
+        2 => { for j in 0..k { let e = r.below(n as u64) as usize; for i in 0..n { b[i * k + j] = if i == e { 1.0 } else if r.coin(0.5) { 0.0 } else { -0.0 }; } } }   // unit vectors
+        3 => { let z = r.below(k as u64) as usize; for i in 0..n { b[i * k + z] = 0.0; } }    // one zero column
+        4 => { for j in 0..k { let s = pow2(r.range(-40, 40)); for i in 0..n { b[i * k + j] *= s; } } }   // columns of very different scale
+        _ => {                                                                                // B = A . X, X of order one
+            let x: Vec<f64> = (0..n * k).map(|_| r.uniform(-4.0, 4.0)).collect();
+            for i in 0..n { for j in 0..k { let mut s = 0.0; for l in 0..n { s += a[i * n + l] * x[l * k + j]; } b[i * k + j] = s; } }
+        }
+    }
+    b
+}
+
+/// any class, old or new
+fn gen_any(r: &mut Rng, c: &str, n: usize) -> (Vec<f64>, bool) { if EXTRA.contains(&c) { gen_extra(r, c, n) } else { (gen_matrix(r, c, n), false) } }
+
 pub fn gen_rhs(r: &mut Rng, c: &str, a: &[f64], n: usize, k: usize) -> Vec<f64> {
     // row-major n x k
     if c == "integer-known" || c == "near-singular" || c == "sparse-graded" {
@@ -152,18 +300,11 @@ fn push_chol(cs: &mut Cases, a: &[f64], tag: &str, nt: bool) {
 
 // ---------------------------------------------------------------------------------------------
 // correspondence cases
-pub fn gen(tier: &str, seed: u64, outdir: &str) {
-    let mut r = Rng::new(seed);
-    let mut cs = Cases::new("C01");
-    let thorough = tier == "thorough";
-    let nmax = if thorough { 32 } else { 12 };
-    let reps = if thorough { 2 } else { 1 };
+/// one system through the six entry points, the two predicates and the two Cholesky forms
+fn push_system(cs: &mut Cases, r: &mut Rng, c: &str, n: usize, a: &[f64], k: usize, bm: &[f64]) {
     let nat = |x: usize| Tm::Nat(x as u64);
-    for _ in 0..reps { for n in 1..=nmax { for c in CLASSES.iter() {
-        if thorough && n > 16 && r.coin(0.5) { continue; }
-        let a = gen_matrix(&mut r, c, n);
-        let k = 1 + r.below(6) as usize;
-        let bm = gen_rhs(&mut r, c, &a, n, k);
+    let a = a.to_vec(); let bm = bm.to_vec();
+    {
         let bv: Vec<f64> = (0..n).map(|i| bm[i * k]).collect();
         let route = if is_positive_definite(&a) { "pd-predicate" } else { "lu" };
         let nt = n >= 2;
@@ -192,7 +333,23 @@ pub fn gen(tier: &str, seed: u64, outdir: &str) {
         cs.push(app("CIsSym", vec![fl(&a), outcome_list(&res)]), "is_symmetric", nt);
         let res = catch(|| b2f(is_positive_definite(&a)));
         cs.push(app("CIsPD", vec![fl(&a), outcome_list(&res)]), "is_positive_definite", nt);
-        if n <= 16 { push_chol(&mut cs, &a, c, nt); }
+        if n <= 16 { push_chol(cs, &a, c, nt); }
+    }
+}
+
+pub fn gen(tier: &str, seed: u64, outdir: &str) {
+    let mut r = Rng::new(seed);
+    let mut cs = Cases::new("C01");
+    let thorough = tier == "thorough";
+    let nmax = if thorough { 32 } else { 12 };
+    let reps = if thorough { 2 } else { 1 };
+    let nat = |x: usize| Tm::Nat(x as u64);
+    for _ in 0..reps { for n in 1..=nmax { for c in CLASSES.iter() {
+        if thorough && n > 16 && r.coin(0.5) { continue; }
+        let a = gen_matrix(&mut r, c, n);
+        let k = 1 + r.below(6) as usize;
+        let bm = gen_rhs(&mut r, c, &a, n, k);
+        push_system(&mut cs, &mut r, c, n, &a, k, &bm);
     }}}
     // predicate boundary: asymmetry exactly at / just above / below the tolerance, zero / negative / NaN diagonal, special values
     let npred = if thorough { 400 } else { 80 };
@@ -280,8 +437,20 @@ pub fn gen(tier: &str, seed: u64, outdir: &str) {
             }
         }
     }
+    // coverage audit: the nine audit classes (extreme magnitudes, row-and-column scaling, ill-conditioned / graded / textbook SPD, mirrored
+    // entries one ulp apart, late negative pivot, growth 2^(n-1), exactly structured with signed zeros) with zero / unit / partly zero /
+    // badly scaled right-hand sides; the first and last orders and a ladder in between
+    let ladder: Vec<usize> = if thorough { vec![1, 2, 3, 4, 5, 6, 7, 8, 9, 10, 11, 12, 16, 17, 24, 31, 32] } else { vec![1, 2, 3, 5, 8, 12] };
+    let mut cnt = 0u64;
+    for &n in ladder.iter() { for c in EXTRA.iter() {
+        let (a, _) = gen_extra(&mut r, c, n);
+        let k = if cnt % 3 == 0 { 6 } else { 1 + r.below(6) as usize };
+        let bm = gen_rhs_extra(&mut r, &a, n, k, cnt / 3 + cnt);
+        push_system(&mut cs, &mut r, c, n, &a, k, &bm);
+        cnt += 1;
+    }}
     cs.write(outdir, if thorough { 60 } else { 150 },
-             "twelve matrix classes (sparse row-graded with weak couplings; ill-conditioned with b = A.x; random dense, integer with known solution, SPD, symmetric indefinite with positive diagonal, symmetric small-integer with positive diagonal (exact zero pivots), symmetric diagonally dominant, diagonally dominant, permuted/scaled triangular, graded over ten decades, tiny-scale non-symmetric with positive diagonal) x every order 1..12 (quick) / 1..32 (thorough) x 1..6 right-hand sides through all six entry points (solve, solve_sys, invert_matrix, Matrix::solve for Vector and Matrix, Matrix::inv) and the two routing predicates; predicate-boundary matrices (asymmetry at the tolerance, zero/negative/NaN diagonal), singular matrices, every small layout conversion, and a malformed stream of arbitrary lengths/shapes; non-trivial = order >= 2 (value cases), a panic (malformed stream); distinct by hash of the case term");
+             "nine audit classes at the first, the last and intermediate orders (2^+-100..900 scalings of the property's classes, row-and-column scalings over 300 binades, graded / ill-conditioned / textbook SPD, mirrored entries one ulp apart, indefinite through one late pivot, growth 2^(n-1), identity / permutation / diagonal / triangular with signed zeros; zero, unit, partly zero and badly scaled right-hand sides) and twelve matrix classes (sparse row-graded with weak couplings; ill-conditioned with b = A.x; random dense, integer with known solution, SPD, symmetric indefinite with positive diagonal, symmetric small-integer with positive diagonal (exact zero pivots), symmetric diagonally dominant, diagonally dominant, permuted/scaled triangular, graded over ten decades, tiny-scale non-symmetric with positive diagonal) x every order 1..12 (quick) / 1..32 (thorough) x 1..6 right-hand sides through all six entry points (solve, solve_sys, invert_matrix, Matrix::solve for Vector and Matrix, Matrix::inv) and the two routing predicates; predicate-boundary matrices (asymmetry at the tolerance, zero/negative/NaN diagonal), singular matrices, every small layout conversion, and a malformed stream of arbitrary lengths/shapes; non-trivial = order >= 2 (value cases), a panic (malformed stream); distinct by hash of the case term");
 }
 
 // ---------------------------------------------------------------------------------------------
@@ -299,13 +468,23 @@ fn dd_residual(row: &[f64], x: &dyn Fn(usize) -> f64, b: f64) -> f64 {
     hi + lo
 }
 
-/// the oracle's own elimination with partial pivoting: returns (max_i sum_j (|L||U|)_ij, min |u_ii|, max |a_ij|)
+/// the oracle's own elimination with partial pivoting: returns (max_i sum_j (|L||U|)_ij, min |u_ii|, max |a_ij|).
+/// Partial pivoting does not say WHICH of several entries of equal largest magnitude becomes the pivot, and the growth can depend on it
+/// (1 on the diagonal, -1 below, 1 in the last column: taking the diagonal gives growth 2^(n-1), taking the last row gives none); the
+/// bound must hold for an implementation that makes either choice, so the growth is the larger of the two conventions (first / last
+/// largest entry); without ties the two eliminations are the same.  The smallest pivot is that of the last-largest convention.
 fn reference_growth(a: &[f64], n: usize) -> (f64, f64, f64) {
+    let (g_last, minpiv, amax) = reference_growth_conv(a, n, false);
+    let (g_first, _, _) = reference_growth_conv(a, n, true);
+    (g_last.max(g_first), minpiv, amax)
+}
+fn reference_growth_conv(a: &[f64], n: usize, first: bool) -> (f64, f64, f64) {
     let mut m: Vec<Vec<f64>> = (0..n).map(|i| a[i * n..(i + 1) * n].to_vec()).collect();
     let amax = a.iter().fold(0.0f64, |s, x| s.max(x.abs()));
     let mut minpiv = f64::INFINITY;
     for j in 0..n {
         let p = (j..n).max_by(|&x, &y| m[x][j].abs().partial_cmp(&m[y][j].abs()).unwrap_or(std::cmp::Ordering::Equal)).unwrap();
+        let p = if first { (j..n).find(|&x| m[x][j].abs() == m[p][j].abs()).unwrap_or(p) } else { p };
         m.swap(p, j);
         let d = m[j][j];
         minpiv = minpiv.min(d.abs());
@@ -353,10 +532,37 @@ fn judge(sys: &Sys, entry: &str, route: &str, b: &[f64], k: usize, got: &Result<
     }
 }
 
+/// one system through all six entry points; false if the draw is numerically singular (outside the property's quantifier) and was skipped
+fn run_system(class: &str, a: &[f64], n: usize, k: usize, bm: &[f64], by_construction: bool, tried: &mut u64, out: &mut Vec<Finding>) -> bool {
+    let bv: Vec<f64> = (0..n).map(|i| bm[i * k]).collect();
+    let (lu_norm, minpiv, amax) = reference_growth(a, n);
+    // numerically singular draws are outside the property's quantifier (a matrix that is an exact scaling of a strictly diagonally
+    // dominant one is nonsingular whatever the ratio of its smallest pivot to its largest entry)
+    if !lu_norm.is_finite() || !(minpiv > 0.0) { return false; }
+    if !by_construction && !(minpiv > 1e-13 * amax) { return false; }
+    let sys = Sys { class, a, n, lu_norm };
+    let route = if catch(|| is_positive_definite(a)).unwrap_or(false) { "pd-predicate" } else { "lu" };
+    let input = format!("class={} n={} a={} b(row-major n x {})={}", class, n, json_floats(a), k, json_floats(bm));
+    crumb(&input);
+    *tried += 1; judge(&sys, "solve", route, &bv, 1, &catch(|| solve(a, &bv)), &input, out);
+    *tried += 1; judge(&sys, "solve_sys", route, bm, k, &catch(|| solve_sys(a, bm)), &input, out);
+    let eye: Vec<f64> = (0..n * n).map(|i| if i / n == i % n { 1.0 } else { 0.0 }).collect();
+    *tried += 1; judge(&sys, "invert_matrix", route, &eye, n, &catch(|| invert_matrix(a)), &input, out);
+    let m = Matrix::new(a.to_vec(), n as i32, n as i32);
+    *tried += 1; judge(&sys, "Matrix::solve(Vector)", "lu", &bv, 1, &catch(|| Solve::<Vector>::solve(&m, &Vector::new(bv.clone())).v), &input, out);
+    let sm = Matrix::new(bm.to_vec(), n as i32, k as i32);
+    let got = catch(|| { let x = Solve::<Matrix>::solve(&m, &sm); assert!(x.nrows == n && x.ncols == k, "result shape {}x{}", x.nrows, x.ncols); x.data.v.clone() });
+    *tried += 1; judge(&sys, "Matrix::solve(Matrix)", "lu", bm, k, &got, &input, out);
+    let got = catch(|| { let x = m.inv(); assert!(x.nrows == n && x.ncols == n, "result shape {}x{}", x.nrows, x.ncols); x.data.v.clone() });
+    *tried += 1; judge(&sys, "Matrix::inv", "lu", &eye, n, &got, &input, out);
+    true
+}
+
 pub fn oracle(tier: &str, seed: u64) -> (u64, Vec<Finding>) {
     let mut r = Rng::new(seed ^ 0xC01);
     let mut out: Vec<Finding> = vec![]; let mut tried = 0u64;
-    let iters = if tier == "thorough" { 6000 } else { 900 };
+    let thorough = tier == "thorough";
+    let iters = if thorough { 6000 } else { 900 };
     // the documented witness of D1 first
     let mut fixed: Vec<(Vec<f64>, usize, &str)> = vec![(vec![1.0, 2.0, 2.0, 1.0], 2, "sym-indef-posdiag"), (vec![4.0, 6.0, 6.0, 1.0], 2, "sym-indef-posdiag")];
     for it in 0..iters {
@@ -367,26 +573,10 @@ pub fn oracle(tier: &str, seed: u64) -> (u64, Vec<Finding>) {
         };
         let k = 1 + r.below(6) as usize;
         let bm = gen_rhs(&mut r, class, &a, n, k);
-        let bv: Vec<f64> = (0..n).map(|i| bm[i * k]).collect();
-        let (lu_norm, minpiv, amax) = reference_growth(&a, n);
-        // numerically singular draws are outside the property's quantifier
-        if !(minpiv > 1e-13 * amax) || !lu_norm.is_finite() { continue; }
-        let sys = Sys { class, a: &a, n, lu_norm };
-        let route = if catch(|| is_positive_definite(&a)).unwrap_or(false) { "pd-predicate" } else { "lu" };
-        let input = format!("class={} n={} a={} b(row-major n x {})={}", class, n, json_floats(&a), k, json_floats(&bm));
-        crumb(&input);
         let before = out.len();
-        tried += 1; judge(&sys, "solve", route, &bv, 1, &catch(|| solve(&a, &bv)), &input, &mut out);
-        tried += 1; judge(&sys, "solve_sys", route, &bm, k, &catch(|| solve_sys(&a, &bm)), &input, &mut out);
-        let eye: Vec<f64> = (0..n * n).map(|i| if i / n == i % n { 1.0 } else { 0.0 }).collect();
-        tried += 1; judge(&sys, "invert_matrix", route, &eye, n, &catch(|| invert_matrix(&a)), &input, &mut out);
+        if !run_system(class, &a, n, k, &bm, false, &mut tried, &mut out) { continue; }
+        let input = format!("class={} n={} a={} b(row-major n x {})={}", class, n, json_floats(&a), k, json_floats(&bm));
         let m = Matrix::new(a.clone(), n as i32, n as i32);
-        tried += 1; judge(&sys, "Matrix::solve(Vector)", "lu", &bv, 1, &catch(|| Solve::<Vector>::solve(&m, &Vector::new(bv.clone())).v), &input, &mut out);
-        let sm = Matrix::new(bm.clone(), n as i32, k as i32);
-        let got = catch(|| { let x = Solve::<Matrix>::solve(&m, &sm); assert!(x.nrows == n && x.ncols == k, "result shape {}x{}", x.nrows, x.ncols); x.data.v.clone() });
-        tried += 1; judge(&sys, "Matrix::solve(Matrix)", "lu", &bm, k, &got, &input, &mut out);
-        let got = catch(|| { let x = m.inv(); assert!(x.nrows == n && x.ncols == n, "result shape {}x{}", x.nrows, x.ncols); x.data.v.clone() });
-        tried += 1; judge(&sys, "Matrix::inv", "lu", &eye, n, &got, &input, &mut out);
         // route independence: the slice solver against the always-LU Matrix solver on the same system -- both were judged
         // against the same residual bound above; additionally a system whose routing predicate holds must not lose
         // finiteness that the LU route keeps (reported by the non-finite classes above).
@@ -397,10 +587,46 @@ pub fn oracle(tier: &str, seed: u64) -> (u64, Vec<Finding>) {
             if let Ok(v) = catch(|| solve(&a, &bad)) { out.push(Finding { class: "solve:mismatch-accepted".into(), what: format!("solve returned {} values for a right-hand side of length {} against order {}", v.len(), bad.len(), n), input: format!("{} bad_b={}", input, json_floats(&bad)) }); }
             if n >= 2 && bad.len() % n != 0 { if let Ok(v) = catch(|| solve_sys(&a, &bad)) { out.push(Finding { class: "solve_sys:mismatch-accepted".into(), what: format!("solve_sys returned {} values for {} right-hand-side entries against order {}", v.len(), bad.len(), n), input: format!("{} bad_b={}", input, json_floats(&bad)) }); } }
             if let Ok(v) = catch(|| Solve::<Vector>::solve(&m, &Vector::new(bad.clone())).v) { out.push(Finding { class: "Matrix::solve(Vector):mismatch-accepted".into(), what: format!("returned {} values for a right-hand side of length {} against order {}", v.len(), bad.len(), n), input: format!("{} bad_b={}", input, json_floats(&bad)) }); }
+            // the same rejections at the Matrix entry points (no further random draws: the stream of systems is unchanged)
+            tried += 2;
+            let badm: Vec<f64> = (0..(n + 1) * k).map(|i| (i % 7) as f64 - 3.0).collect();
+            if let Ok(v) = catch(|| { let bb = Matrix::new(badm.clone(), (n + 1) as i32, k as i32); Solve::<Matrix>::solve(&m, &bb).data.v.clone() }) { out.push(Finding { class: "Matrix::solve(Matrix):mismatch-accepted".into(), what: format!("returned {} values for a right-hand side with {} rows against order {}", v.len(), n + 1, n), input: format!("{} bad_B={}x{}", input, n + 1, k) }); }
+            if n >= 2 { if let Ok(v) = catch(|| { let ns = Matrix::new(a[..n * (n - 1)].to_vec(), n as i32, (n - 1) as i32); ns.inv().data.v.clone() }) { out.push(Finding { class: "Matrix::inv:nonsquare-accepted".into(), what: format!("Matrix::inv returned {} values for a {}x{} matrix", v.len(), n, n - 1), input: input.clone() }); } }
             if n >= 2 { let ns: Vec<f64> = a[..n * (n - 1)].to_vec();
                 if let Ok(v) = catch(|| invert_matrix(&ns)) { if (((n * (n - 1)) as f64).sqrt() as usize).pow(2) != n * (n - 1) { out.push(Finding { class: "invert_matrix:nonsquare-accepted".into(), what: format!("invert_matrix returned {} values for {} entries", v.len(), ns.len()), input: input.clone() }); } } }
         }
         if out.len() > before && out.len() > 60 { break; }
+    }
+    // coverage sweep (own random stream: the draws above are unchanged): EVERY class, old and new, at the first and the last orders of the
+    // quantifier and at a ladder in between (quick) / at every order 1..32 (thorough), with 1 and 6 right-hand sides at every order and
+    // all six kinds of right-hand side; the audit classes additionally at random small orders
+    let mut r = Rng::new(seed ^ 0xC01A);
+    let ladder: Vec<usize> = if thorough { (1..=32).collect() } else { vec![1, 2, 3, 4, 5, 8, 9, 16, 17, 24, 31, 32] };
+    let reps = if thorough { 4 } else { 1 };
+    let all: Vec<&str> = CLASSES.iter().chain(EXTRA.iter()).cloned().collect();
+    let mut cnt = 0u64;
+    for rep in 0..reps { for &n in ladder.iter() { for class in all.iter() {
+        for &k in [1usize, 6, 1 + ((cnt % 4) as usize + 1)].iter() {
+            if out.len() > 60 { break; }
+            // up to 4 draws: a numerically singular draw is replaced
+            for _ in 0..4 {
+                let (a, byc) = gen_any(&mut r, class, n);
+                let bm = if EXTRA.contains(class) || (cnt + rep as u64) % 2 == 1 { gen_rhs_extra(&mut r, &a, n, k, cnt) } else { gen_rhs(&mut r, class, &a, n, k) };
+                if run_system(class, &a, n, k, &bm, byc, &mut tried, &mut out) { break; }
+            }
+            cnt += 1;
+        }
+    }}}
+    let extra_small = if thorough { 4000 } else { 600 };
+    for it in 0..extra_small {
+        if out.len() > 60 { break; }
+        let class = EXTRA[it % EXTRA.len()];
+        let n = 1 + r.below(if it % 4 == 0 { 32 } else { 10 }) as usize;
+        let k = 1 + r.below(6) as usize;
+        let (a, byc) = gen_extra(&mut r, class, n);
+        let mode = r.below(6);
+        let bm = gen_rhs_extra(&mut r, &a, n, k, mode);
+        run_system(class, &a, n, k, &bm, byc, &mut tried, &mut out);
     }
     (tried, out)
 }
